@@ -5,6 +5,9 @@ package c25
 
 import (
 	"fmt"
+
+	"google.golang.org/protobuf/types/known/structpb"
+
 	"sort"
 	"strings"
 )
@@ -28,7 +31,58 @@ const (
 
 var kindName = [...]string{"bool", "string", "int", "uint", "double", "duration", "timestamp", "list<string>", "map<string>", "ipaddress", "any"}
 
-func (k kind) String() string { return kindName[k] }
+func (k kind) String() string {
+	if k < nKinds {
+		return kindName[k]
+	}
+	return genInfo(k).name
+}
+
+// ---- generated container kinds: list<T> / map<T> over every element type T (T may itself be generated) ----
+//
+// kList / kMap above are the hand-written list<string> / map<string> of the first version of the check; the
+// generated kinds get their value alphabet from the element type's alphabet (see genAlphabet in containers.go).
+
+const (
+	shList = 1
+	shMap  = 2
+)
+
+type kindInfo struct {
+	name  string
+	shape int
+	elem  kind
+}
+
+// the registry is filled while the grammar is built (single goroutine, before any evaluation) and only read afterwards
+var (
+	genKinds  []kindInfo
+	genByName = map[string]kind{}
+)
+
+func containerOf(shape int, t kind) kind {
+	if t == kList || t == kMap {
+		panic("oracle: the hand-written container kinds are not element types")
+	}
+	name := "list<" + t.String() + ">"
+	if shape == shMap {
+		name = "map<" + t.String() + ">"
+	}
+	if k, ok := genByName[name]; ok {
+		return k
+	}
+	k := nKinds + kind(len(genKinds))
+	genKinds = append(genKinds, kindInfo{name: name, shape: shape, elem: t})
+	genByName[name] = k
+	return k
+}
+
+func listOf(t kind) kind { return containerOf(shList, t) }
+func mapOf(t kind) kind  { return containerOf(shMap, t) }
+
+func genInfo(k kind) kindInfo { return genKinds[k-nKinds] }
+
+func totalKinds() int { return int(nKinds) + len(genKinds) }
 
 // jnull is the JSON null marker inside alphabet values (a Go nil would be ambiguous with "absent").
 type jnull struct{}
@@ -45,7 +99,9 @@ type tv struct {
 	m  map[string]string
 	ip [16]byte // v4 addresses: last four bytes
 	v4 bool
-	j  any // kAny: the JSON value itself (string, float64, bool, jnull{}, []any, map[string]any)
+	j  any           // kAny: the JSON value itself (string, float64, bool, jnull{}, []any, map[string]any)
+	le []tv          // generated list<T>: the converted elements
+	me map[string]tv // generated map<T>: the converted values
 }
 
 // ---- equality / order of the reference ------------------------------------------------
@@ -131,6 +187,28 @@ func eqTV(a, b tv) bool {
 	case kAny:
 		return jsonEq(a.j, b.j)
 	}
+	if a.k >= nKinds {
+		if genInfo(a.k).shape == shList {
+			if len(a.le) != len(b.le) {
+				return false
+			}
+			for i := range a.le {
+				if !eqTV(a.le[i], b.le[i]) {
+					return false
+				}
+			}
+			return true
+		}
+		if len(a.me) != len(b.me) {
+			return false
+		}
+		for k, v := range a.me {
+			if w, ok := b.me[k]; !ok || !eqTV(v, w) {
+				return false
+			}
+		}
+		return true
+	}
 	panic("oracle: eq kind")
 }
 
@@ -171,7 +249,35 @@ func cmpTV(a, b tv) int {
 
 // ---- expressions ------------------------------------------------------------------------
 
-type env map[string]tv
+// env binds the operand texts of the atoms (parameter names, and for containers the texts that read an
+// element) to reference values. A handful of entries: a slice with linear lookup (no per-case map allocation).
+type env = *envT
+
+type envT struct {
+	names []string
+	vals  []*tv
+}
+
+func newEnv() env { return &envT{names: make([]string, 0, 8), vals: make([]*tv, 0, 8)} }
+
+func (e *envT) get(n string) tv {
+	for i := len(e.names) - 1; i >= 0; i-- {
+		if e.names[i] == n {
+			return *e.vals[i]
+		}
+	}
+	return tv{}
+}
+
+func (e *envT) set(n string, v *tv) {
+	for i := range e.names {
+		if e.names[i] == n {
+			e.vals[i] = v
+			return
+		}
+	}
+	e.names, e.vals = append(e.names, n), append(e.vals, v)
+}
 
 type expr interface {
 	cel() string
@@ -181,7 +287,7 @@ type expr interface {
 type boolVar struct{ p string }
 
 func (x boolVar) cel() string     { return x.p }
-func (x boolVar) eval(e env) bool { return e[x.p].b }
+func (x boolVar) eval(e env) bool { return e.get(x.p).b }
 
 type cmpLit struct {
 	p, op string
@@ -191,7 +297,7 @@ type cmpLit struct {
 
 func (x cmpLit) cel() string { return x.p + " " + x.op + " " + x.text }
 func (x cmpLit) eval(e env) bool {
-	v := e[x.p]
+	v := e.get(x.p)
 	switch x.op {
 	case "==":
 		return eqTV(v, x.lit)
@@ -220,14 +326,14 @@ func (x eqPar) cel() string {
 	}
 	return x.p + " == " + x.q
 }
-func (x eqPar) eval(e env) bool { return eqTV(e[x.p], e[x.q]) != x.neg }
+func (x eqPar) eval(e env) bool { return eqTV(e.get(x.p), e.get(x.q)) != x.neg }
 
 // inLit: `"elem" in p` for list<string> (membership) and map<string> (key membership).
 type inLit struct{ elem, p string }
 
 func (x inLit) cel() string { return fmt.Sprintf("%q in %s", x.elem, x.p) }
 func (x inLit) eval(e env) bool {
-	v := e[x.p]
+	v := e.get(x.p)
 	if v.k == kList {
 		for _, s := range v.l {
 			if s == x.elem {
@@ -254,7 +360,7 @@ type inCidr struct {
 
 func (x inCidr) cel() string { return fmt.Sprintf("%s.in_cidr(%q)", x.p, x.c.text) }
 func (x inCidr) eval(e env) bool {
-	v := e[x.p]
+	v := e.get(x.p)
 	if v.v4 != x.c.v4 {
 		return false
 	}
@@ -312,9 +418,12 @@ type val struct {
 	JSON     any    // JSON value (jnull{} for null)
 	Conv     int
 	T        tv
-	Plain    bool // canonical spelling of an ordinary value
-	Clamp    *tv  // diagnosis only: what saturating the number to the int64 range would give (never used for the verdict)
-	Thorough bool // only part of the thorough alphabet
+	Plain    bool            // canonical spelling of an ordinary value
+	Clamp    *tv             // diagnosis only: what saturating the number to the int64 range would give (never used for the verdict)
+	Thorough bool            // only part of the thorough alphabet
+	Short    bool            // generated containers: convertible, but position 0/1 (key "k"/"j") is missing somewhere: not used with indexing expressions
+	pb       *structpb.Value // the value as handed to the real evaluator (built once in Run)
+	Cat      string          // generated containers: class used to pick representatives when the kind is itself an element type
 }
 
 func ip4(a, b, c, d byte) tv {
@@ -343,6 +452,9 @@ func clamp(v val, t tv) val      { v.Clamp = &t; return v }
 
 // alphabet returns the context-value classes of a parameter type (without "absent").
 func alphabet(k kind, thorough bool) []val {
+	if k >= nKinds {
+		return genAlphabet(k, thorough)
+	}
 	var vs []val
 	switch k {
 	case kBool:
@@ -468,6 +580,9 @@ func alphabet(k kind, thorough bool) []val {
 
 // atoms returns the comparison-with-literal expressions of the grammar for parameter p of kind k.
 func atoms(k kind, p string, thorough bool) []expr {
+	if k >= nKinds {
+		return genAtoms(k, p, thorough)
+	}
 	lit := func(op, text string, t tv) expr { t.k = k; return cmpLit{p: p, op: op, lit: t, text: text} }
 	var as, extra []expr
 	switch k {
@@ -516,6 +631,7 @@ func atoms(k kind, p string, thorough bool) []expr {
 type param struct {
 	Name string
 	K    kind
+	Full bool // generated container kinds: the expression indexes the container, so only values with both positions are used
 }
 
 type cond struct {
@@ -523,16 +639,19 @@ type cond struct {
 	Params []param
 	E      expr
 	Form   string
+
+	Container     bool // the parameter is a generated list<T>/map<T>
+	TypeSensitive bool // member of the type-sensitive families (derived atoms, x<y, containers)
 }
 
 // conditions enumerates the grammar: per type, one- and two-parameter conditions.
 func conditions(thorough bool) []*cond {
 	var cs []*cond
 	add := func(form string, e expr, ps ...param) {
-		cs = append(cs, &cond{Name: fmt.Sprintf("c%04d", len(cs)), Params: ps, E: e, Form: form})
+		cs = append(cs, &cond{Name: fmt.Sprintf("c%04d", len(cs)), Params: ps, E: e, Form: form, Container: len(ps) > 0 && ps[0].K >= nKinds})
 	}
 	for k := kind(0); k < nKinds; k++ {
-		x, y := param{"x", k}, param{"y", k}
+		x, y := param{Name: "x", K: k}, param{Name: "y", K: k}
 		ax, ay := atoms(k, "x", thorough), atoms(k, "y", thorough)
 		// one parameter
 		for i, a := range ax {
@@ -578,13 +697,20 @@ func conditions(thorough bool) []*cond {
 		// two parameters of different types
 		for k1 := kind(0); k1 < nKinds; k1++ {
 			for k2 := k1 + 1; k2 < nKinds; k2++ {
-				x, y := param{"x", k1}, param{"y", k2}
+				x, y := param{Name: "x", K: k1}, param{Name: "y", K: k2}
 				a, b := atoms(k1, "x", false)[0], atoms(k2, "y", false)[0]
 				add("mixed:atom(x)&&atom(y)", and{a, b}, x, y)
 				add("mixed:atom(x)||atom(y)", or{a, b}, x, y)
 				add("mixed:!atom(x)||atom(y)", or{not{a}, b}, x, y)
 			}
 		}
+	}
+	// appended after the older members so that their names (used by replay files) stay stable
+	first := len(cs)
+	scalarTypeSensitiveConditions(add, thorough)
+	containerConditions(add, thorough)
+	for _, c := range cs[first:] {
+		c.TypeSensitive = true
 	}
 	return cs
 }
